@@ -11,6 +11,7 @@ import json
 from fractions import Fraction
 
 from vlib import core
+from vlib import translate
 from vlib.core import g_list, g_nat, g_q, g_str
 
 IMPORTS = "From QV Require Import Common.Base Agg.Cvar Agg.AggCheck.\nFrom Coq Require Import QArith NArith."
@@ -320,6 +321,7 @@ def do_case(ctx, case, glits, kept):
 
 
 def run(ctx):
+    translate.check_link(ctx, "C14")  # regenerate Gallina from /repo's current source; link lemmas coq/link/C14Link.v
     ctx.rule = ("distributions from shot counts (shots in {1,2,4,8,10,100,1000,1024} and 1e5/1e6 for the tolerance branch; 1..2^n outcomes, n<=4, random dictionary order, ties) x diagonal "
                 "SparsePauliOp with small dyadic coefficients and its diagonal as bitstring function x 2-5 alphas from {1, 1/2, 1/4, 0.1, 1-1e-7, 0.99999, c/shots, prefix masses of the "
                 "sorted distribution and values just beside them, random}; both paths per alpha; distinct = distinct (distribution, operator, alphas); non-trivial = at least two outcomes")
